@@ -50,7 +50,9 @@ inductive Tok where
 inductive Frm where | none | member | stranger deriving DecidableEq, Repr
 
 inductive Env where
-  | proto (to : Tok) (frm : Frm) (bodyOk : Bool)
+  /-- `m3`: the payload is of the type the harness counts (its handlers' plain type); `false`: a
+  well-formed message of another registered type, whatever type the sender *announces* -/
+  | proto (to : Tok) (frm : Frm) (bodyOk : Bool) (m3 : Bool)
   | reqTree (t : TRef) (v0 : Bool)
   | respTree (tm : Option TM) (ro : Option Ro)
   | treeMarshal (tm : TM)
@@ -95,27 +97,28 @@ def makeTree (tm : TM) (ro : Ro) : Bool :=
   ro.id = tm.ro && tm.shape = .good && ro.hasList
 
 /-- the `transmitMux` region for a message whose tree is present, then the reader goroutine -/
-def deliver (s : Srv) (to : Tok) (frm : Frm) : Out × Srv :=
+def deliver (s : Srv) (to : Tok) (frm : Frm) (m3 : Bool) : Out × Srv :=
+  let c := if m3 then 1 else 0
   match to with
   | .none => (.ignored, s)                       -- unreachable: refused before
   | .done =>
     if s.doneMark then (.ignored, s)             -- finished instance: dropped
     else
-      let s1 := { s with doneLive := true, handed := s.handed + 1 }
+      let s1 := { s with doneLive := true, handed := s.handed + c }
       (match frm with
-       | .member => (.ok, { s1 with delivered := s1.delivered + 1 })
+       | .member => (.ok, { s1 with delivered := s1.delivered + c })
        | _ => (.ignored, s1))
   | .badNode => (.ignored, s)                    -- "No TreeNode defined in this tree here"
   | .zero => (.ignored, s)                       -- tree Z is never present
   | .run =>
-    let s1 := { s with run := true, handed := s.handed + 1 }
+    let s1 := { s with run := true, handed := s.handed + c }
     (match frm with
-     | .member => (.ok, { s1 with delivered := s1.delivered + 1 })
+     | .member => (.ok, { s1 with delivered := s1.delivered + c })
      | _ => (.ignored, s1))                      -- missing / foreign sender: refused by the instance
   | .fresh t =>
-    let s1 := { s with fresh := upd s.fresh t true, handed := s.handed + 1 }
+    let s1 := { s with fresh := upd s.fresh t true, handed := s.handed + c }
     (match frm with
-     | .member => (.ok, { s1 with delivered := s1.delivered + 1 })
+     | .member => (.ok, { s1 with delivered := s1.delivered + c })
      | _ => (.ignored, s1))
 
 /-- `RegisterTree` of a received tree: store it and flush what was parked for it (the harness
@@ -145,12 +148,12 @@ def instanceRoster (s : Srv) (r : RoRef) : Bool :=
 
 /-- one envelope on the code as it is now -/
 def process (s : Srv) : Env → Out × Srv
-  | .proto to frm bodyOk =>
+  | .proto to frm bodyOk m3 =>
     if !bodyOk then (.ignored, s)                                   -- `Unwrap`: undecodable body
     else if to = .none then (.ignored, s)                           -- no destination token
     else
       let t := treeOf to
-      if s.slot t = .present then deliver s to frm
+      if s.slot t = .present then deliver s to frm m3
       else
         -- `requestTree`: park, re-check, register and ask the peer
         let s1 := { s with parked := upd s.parked t (s.parked t + 1) }
@@ -183,12 +186,12 @@ def creates : Tok → Bool
 
 /-- the pinned code before the repairs: the five crash / lock-leak sites -/
 def processOld (s : Srv) : Env → Out × Srv
-  | .proto to frm bodyOk =>
+  | .proto to frm bodyOk m3 =>
     if !bodyOk then (.ignored, s)
     else if to = .none then (.panic, s)                             -- `onetMsg.To.TreeID`
     else if frm = .none && s.slot (treeOf to) = .present && creates to then
       (.panic, s)                                                   -- reader: `onetMsg.From.TreeNodeID`
-    else process s (.proto to frm bodyOk)
+    else process s (.proto to frm bodyOk m3)
   | .respTree (some tm) (some ro) =>
     if tm.id ≠ .Z ∧ s.slot tm.id ≠ .absent ∧ ro.id = tm.ro ∧ tm.shape = .emptyChildren then
       (.panic, s)                                                   -- `tm.Children[0]`
@@ -243,7 +246,8 @@ def obs (o : Out) (x : Srv) : String :=
   s!"K={showSlot (x.slot .K)} R={showSlot (x.slot .R)} U={showSlot (x.slot .U)} Z={showSlot (x.slot .Z)} parked={x.parked .K + x.parked .R + x.parked .U + x.parked .Z} live={live} handed={x.handed} delivered={x.delivered} replies={x.replies} lock={x.treeLock}"
 
 def parse : List String → Option Env
-  | ["proto", t, f, b] => do pure (.proto (← tok t) (← frm f) (← bool b))
+  | ["proto", t, f, "2"] => do pure (.proto (← tok t) (← frm f) true false)
+  | ["proto", t, f, b] => do pure (.proto (← tok t) (← frm f) (← bool b) true)
   | ["reqtree", t, v] => do pure (.reqTree (← tref t) (← bool v))
   | ["resptree", "-", "-"] => some (.respTree none none)
   | ["resptree", "-", r, l] => do pure (.respTree none (some ⟨← roref r, ← bool l⟩))
